@@ -35,7 +35,11 @@ MANIFEST = dict(
          "for the prompt machine, never-discard and all-fired with discard off, and termination.  The same record "
          "predicates judge every token of real runs (real engine, real Waiter, config decoded by cli.readConfig incl. "
          "the discard_overflow default) from two stamps that bracket the Waiter's clock reading, so a scheduling delay "
-         "can only relax a rule, never break it.",
+         "can only relax a rule, never break it.  Grown beyond the statement: scenario pacing min_waiting_time (a shot blocks the "
+         "instance for max(response, min_waiting_time); invariants Paced/ShotLength; bound to the REAL http/scenario gun and "
+         "provider against an in-process target, incl. aborted scenarios); several instances on one schedule (every token held "
+         "by exactly one instance and decided exactly once, fire xor discard; 3 instances with one slow worker in M1); and, as an "
+         "extra in the thorough tier, an inductive invariant of the Waiter over unbounded integer time discharged by Apalache.",
     note="bounds: 3-4 tokens, gaps {0,1,3,5,30} ticks, responses {0,5,25,35} ticks, <= 2 instances (3 in thorough), lazy-tick budget 2 (22 in "
          "thorough); real time: scripts <= 8 s, 100 ms tick; trusted: the recording mocks (Schedule wrapper, gun, "
          "aggregator) and goroutine-id tagging; `>=` vs `>` at exactly 2.000000 s is not observable in real time "
@@ -372,6 +376,10 @@ def run(tier, v):
                                  sum(1 for r_ in rows if r_["ev"] == "conf" and r_["key"] == k_ and r_["run"] < CANARY)
                                  for k_ in ("absent", "true", "false")},
         "trace_spec_canary_violations_flagged": rep["canary"],
+        "pacing_scripts_real_scenario_gun": sum(1 for c in scripts if c.get("mw")),
+        "pacing_shots_observed": sum(1 for r_ in toks if r_.get("mw", 0) > 0 and r_["d"] == "fire"),
+        "pacing_shots_aborted_by_failed_step": sum(sum(c["fail"]) for c in scripts if c.get("mw")),
+        "slow_worker_runs_3_instances": sum(1 for c in cases.values() if c.get("slowms")),
         "trace_states": tstates, "driver_wall_s": round(drv_wall, 1),
         "exhaustive": False,
     }
